@@ -435,6 +435,92 @@ def gro_sequences(tier):
     return seqs
 
 
+def mixed_velocities(pattern, acc, base):
+    """A system of several molecules of which only some carry velocities (a structure read from a GRO file with velocities together
+    with a ligand from a PDB file): the written GRO file reads back with every atom, whichever molecules those are."""
+    import numpy as np
+    from vermouth.gmx.gro import write_gro, read_gro
+    case = {'layer': 'mixed-velocities', 'pattern': list(pattern)}
+    sizes = [2] * len(pattern)
+
+    def attrs_of(gi):
+        attrs = {'atomname': 'C%d' % gi, 'resname': 'GLY', 'resid': gi // 2 + 1, 'chain': 'A', 'position': [0.1 * gi, 1.25, -0.3]}
+        if pattern[gi // 2]:
+            attrs['velocity'] = np.array([0.5 * (gi + 1), -1.5, 2.25])
+        return attrs
+    system, _ = build_system(sizes, attrs_of, [])
+    written = [dict(mol.nodes[k]) for mol in system.molecules for k in mol.nodes]
+    path = os.path.join(base, 'mixed.gro')
+    problems = []
+    try:
+        write_gro(system, path, defer_writing=False)
+        mol = read_gro(path)
+        os.remove(path)
+        read = [dict(mol.nodes[k]) for k in mol.nodes]
+        compare_atoms('gro', written, read, problems)
+        if not problems and all(pattern):
+            for idx, (w, r) in enumerate(zip(written, read)):
+                vel = r.get('velocity')
+                if vel is None or not all(abs(float(a) - float(b)) <= 5e-4 for a, b in zip(vel, w['velocity'])):
+                    problems.append(('gro:mixed-velocities', 'atom %d velocity %r read back as %r' % (idx, list(w['velocity']), vel)))
+                    break
+    except Exception as err:   # pylint: disable=broad-except
+        problems.append(('gro:mixed-velocities-exception', 'a system whose molecules carry velocities as %r does not round-trip: %r' % (list(pattern), err)))
+    acc.case(nontrivial=True, outcome=('mixed', tuple(pattern), tuple(p[0] for p in problems)))
+    for sig, desc in problems[:1]:
+        acc.violation(sig, desc, case)
+
+
+def deferred_files(item, acc, base):
+    """Two systems written with the default deferred writing to two paths, flushed once (what martinize2 does with its output
+    files): each path holds its own system afterwards. The paths share the base name, the directory, or nothing."""
+    from vermouth.pdb.pdb import write_pdb, read_pdb
+    from vermouth.gmx.gro import write_gro, read_gro
+    from vermouth.file_writer import DeferredFileWriter
+    fmt, layout, flush_between = item
+    case = {'layer': 'deferred-files', 'fmt': fmt, 'paths': layout, 'flush_between': flush_between}
+    root = os.path.join(base, 'dw_%s_%s_%d' % (fmt, layout, flush_between))
+    dirs = {'same-name-two-dirs': ('a', 'b'), 'two-names-one-dir': ('a', 'a'), 'name-is-prefix': ('a', 'a'), 'nested-dir': ('a', os.path.join('a', 'a'))}[layout]
+    names = {'same-name-two-dirs': ('out', 'out'), 'two-names-one-dir': ('out', 'other'), 'name-is-prefix': ('out', 'out2'), 'nested-dir': ('out', 'out')}[layout]
+    paths = []
+    for d, n in zip(dirs, names):
+        os.makedirs(os.path.join(root, d), exist_ok=True)
+        paths.append(os.path.join(root, d, '%s.%s' % (n, fmt)))
+    systems = []
+    for which in (0, 1):
+        def attrs_of(gi, which=which):
+            return {'atomname': '%s%d' % ('CN'[which], gi), 'resname': ('GLY', 'ALA')[which], 'resid': gi + 1 + 10 * which, 'chain': 'AB'[which],
+                    'position': [0.1 * gi + which, 0.2, 0.3]}
+        systems.append(build_system([2 + which], attrs_of, [])[0])
+    problems = []
+    try:
+        for which, (system, path) in enumerate(zip(systems, paths)):
+            (write_pdb if fmt == 'pdb' else write_gro)(system, path)
+            if flush_between and which == 0:
+                DeferredFileWriter().write()
+        DeferredFileWriter().write()
+        for which, (system, path) in enumerate(zip(systems, paths)):
+            if not os.path.exists(path):
+                problems.append(('%s:deferred-file-missing' % fmt, 'after the flush %s does not exist (files present: %r)' % (
+                    os.path.relpath(path, root), sorted(os.path.relpath(os.path.join(dp, f), root) for dp, _, fs in os.walk(root) for f in fs))))
+                break
+            mols = read_pdb(path) if fmt == 'pdb' else [read_gro(path)]
+            read = [dict(mol.nodes[k]) for mol in mols for k in mol.nodes]
+            written = [dict(mol.nodes[k]) for mol in system.molecules for k in mol.nodes]
+            sub = []
+            compare_atoms(fmt, written, read, sub)
+            if sub:
+                problems.append(('%s:deferred-file-content' % fmt, '%s holds something else than the system written to it: %s' % (os.path.relpath(path, root), sub[0][1])))
+                break
+    except Exception as err:   # pylint: disable=broad-except
+        problems.append(('%s:deferred-exception' % fmt, 'writing two systems deferred (%s) raised %r' % (layout, err)))
+    finally:
+        shutil.rmtree(root, ignore_errors=True)
+    acc.case(nontrivial=True, outcome=('deferred', fmt, layout, flush_between, tuple(p[0] for p in problems)))
+    for sig, desc in problems[:1]:
+        acc.violation(sig, desc, case)
+
+
 def work(task):
     common.bind_repo()
     kind, cases = task
@@ -447,6 +533,17 @@ def work(task):
                     nothing_to_read(item, acc, base)
                 else:
                     writer_options(item, acc, base)
+        finally:
+            shutil.rmtree(base, ignore_errors=True)
+        return acc
+    if kind == 'several-molecules':
+        base = tempfile.mkdtemp(prefix='verif_c16m_', dir='/dev/shm' if os.path.isdir('/dev/shm') else None)
+        try:
+            for item in cases:
+                if item[0] == 'mixed':
+                    mixed_velocities(item[1], acc, base)
+                else:
+                    deferred_files(item[1:], acc, base)
         finally:
             shutil.rmtree(base, ignore_errors=True)
         return acc
@@ -527,6 +624,13 @@ def run(ctx):
                                    ['no-molecules', 'water-only', 'hydrogens-only']]):
         acc += part
     ctx.layer('pdb-writer-options', acc)
+    items = [('mixed', pat) for n in (1, 2, 3) for pat in itertools.product((True, False), repeat=n)]
+    items += [('deferred', fmt, layout, flush) for fmt in ('pdb', 'gro')
+              for layout in ('same-name-two-dirs', 'two-names-one-dir', 'name-is-prefix', 'nested-dir') for flush in (0, 1)]
+    acc = Acc()
+    for part in common.pmap(work, [('several-molecules', [item]) for item in items], fresh=True):
+        acc += part
+    ctx.layer('velocities-per-molecule-and-deferred-files', acc)
 
 
 def replay(case):
@@ -542,6 +646,10 @@ def replay(case):
             writer_options((case['conect'], case['omit_charges'], case['nan_missing_pos']), acc, base)
         elif layer == 'gro-sequence':
             gro_sequence(tuple(tuple(x) for x in case['sequence']), acc, base)
+        elif layer == 'mixed-velocities':
+            mixed_velocities(tuple(case['pattern']), acc, base)
+        elif layer == 'deferred-files':
+            deferred_files((case['fmt'], case['paths'], case['flush_between']), acc, base)
         elif layer == 'fields':
             check_fields(case, acc, base)
         else:
